@@ -163,8 +163,21 @@ type event struct {
 	off, end int
 }
 
+// itemSpan is one top-level item of a generated input.
+type itemSpan struct {
+	off, end int
+	toks     int
+	intact   bool // neither damaged nor next to a damaged item
+}
+
 type recorder struct {
 	ctx      *simCtx
+	// bounded-stop oracle: spans of intact items -> their token counts. An event whose
+	// range is exactly such a span proves that all tokens of that item were shifted.
+	spans     map[uint64]int32
+	seen      map[uint64]bool
+	matched   int // intact items reported after the canceller fired
+	shiftedLB int // lower bound of tokens shifted after the canceller fired
 	ref      []event // nil in the reference run
 	ev       []event // filled in the reference run only
 	n        int
@@ -185,6 +198,21 @@ func (r *recorder) add(e event) {
 	r.n++
 	if e.end > r.maxEnd {
 		r.maxEnd = e.end
+	}
+	if r.spans != nil && e.kind == 'E' && r.ctx.fired {
+		k := uint64(e.off)<<32 | uint64(e.end)
+		if tk, ok := r.spans[k]; ok && !r.seen[k] {
+			if r.seen == nil {
+				r.seen = map[uint64]bool{}
+			}
+			r.seen[k] = true
+			r.matched++
+			// The first items reported after the cancellation may have been shifted
+			// before it (an item is reported when it is reduced); they do not count.
+			if r.matched > 2 {
+				r.shiftedLB += int(tk)
+			}
+		}
 	}
 }
 
@@ -212,9 +240,11 @@ type Target struct {
 	Parse func(ctx context.Context, input string, rec *recorder) (val string, err error)
 	// TokenEnds lexes input with the package's lexer alone and returns token end offsets.
 	TokenEnds func(input string) []int
-	// Gen produces an input of roughly ntok tokens. flat inputs consist of short
-	// top-level items only (so listener events follow parser progress closely).
-	Gen func(src *sim.Src, ntok int) string
+	// Gen produces an input of roughly ntok tokens: a flat list of short top-level items
+	// (so listener events follow parser progress closely). brk selects how the input is
+	// damaged: 0 not at all, 1 a few items, 2 periodically (every k-th item). The spans of
+	// the intact items are returned for the bounded-stop oracle (nil if unknown).
+	Gen func(src *sim.Src, ntok, brk int) (string, []itemSpan)
 	// Events tells whether listener events reach rec (false for entry points that
 	// build the AST themselves): only then is parser progress observable.
 	Events bool
@@ -348,14 +378,10 @@ func (engine) Run(src *sim.Src, log *sim.Log, res *sim.Result) {
 	case 3:
 		ntok = src.Range(3*B+2000, 10*B)
 	}
-	input := t.Gen(src, ntok)
-	broken := false
+	brk := 0
 	stopAt := 0
 	if t.HasEH {
-		if src.Chance(3, 10) {
-			broken = true
-			input = breakInput(src, input)
-		}
+		brk = src.Pick(60, 22, 18)
 		switch src.Pick(4, 4, 2) {
 		case 0:
 			stopAt = 1 // stop on first error
@@ -364,12 +390,25 @@ func (engine) Run(src *sim.Src, log *sim.Log, res *sim.Result) {
 		case 2:
 			stopAt = 2 + src.Draw(3)
 		}
+		if brk == 2 && src.Chance(3, 4) {
+			stopAt = 0 // periodic damage is about parsing on through many recoveries
+		}
 	} else if src.Chance(15, 100) {
-		broken = true
-		input = breakInput(src, input)
+		brk = 1
+	}
+	broken := brk != 0
+	input, items := t.Gen(src, ntok, brk)
+	var spanTok map[uint64]int32
+	if items != nil {
+		spanTok = make(map[uint64]int32, len(items))
+		for _, it := range items {
+			if it.intact && it.toks > 0 {
+				spanTok[uint64(it.off)<<32|uint64(it.end)] = int32(it.toks)
+			}
+		}
 	}
 	ends := t.TokenEnds(input)
-	log.Printf("target=%s bytes=%d tokens=%d broken=%v stopAt=%d", t.Name, len(input), len(ends), broken, stopAt)
+	log.Printf("target=%s bytes=%d tokens=%d damage=%d stopAt=%d", t.Name, len(input), len(ends), brk, stopAt)
 
 	// 3. reference run: a context that is never cancelled
 	rctx := newSimCtx(errCanceled, -1)
@@ -455,7 +494,7 @@ func (engine) Run(src *sim.Src, log *sim.Log, res *sim.Result) {
 		ek := errKind(src.Pick(4, 2, 2, 3))
 
 		ctx := newSimCtx(ek, fireAt)
-		rec := &recorder{ctx: ctx, ref: rrec.ev, diverged: -1, stopAt: stopAt}
+		rec := &recorder{ctx: ctx, ref: rrec.ev, diverged: -1, stopAt: stopAt, spans: spanTok}
 		if rrec.ev == nil {
 			rec.ref = []event{}
 		}
@@ -546,6 +585,26 @@ func (engine) Run(src *sim.Src, log *sim.Log, res *sim.Result) {
 			}
 			if len(ends)-sort.SearchInts(ends, ctx.firedAt.progress+1) >= 3*B {
 				res.Probe("bounded:cancel-with->=3B-tokens-left")
+			}
+		}
+
+		// bounded stop, second oracle (valid and damaged inputs alike): intact items that
+		// were reported, as a whole, after the cancellation are tokens shifted after it.
+		if ctx.fired && rec.spans != nil {
+			if rec.shiftedLB > res.Probes["max-shifted-after-cancel-lower-bound"] {
+				if res.Probes == nil {
+					res.Probes = map[string]int{}
+				}
+				res.Probes["max-shifted-after-cancel-lower-bound"] = rec.shiftedLB
+			}
+			if rec.shiftedLB > B {
+				res.Fail("C29.bounded", "overrun:"+t.Name,
+					"target %s (%s input, %d tokens): after the context was cancelled (tick %d, %c) the parser still reduced %d intact top-level items holding %d tokens (bound %d) and returned %s",
+					t.Name, [...]string{"valid", "sparsely damaged", "periodically damaged"}[brk], len(ends), fireAt, fk, rec.matched-2, rec.shiftedLB, B, errString(err))
+				return
+			}
+			if !valid && rec.matched > 2 {
+				res.Probe("bounded:checked-on-damaged-input")
 			}
 		}
 
